@@ -22,9 +22,9 @@ namespace etl::detail {
 ///
 /// - base 0: hexadecimal after 0x/0X, octal after a leading 0, decimal otherwise
 /// - base 16: an optional 0x/0X in front of the digits is skipped
+/// - a magnitude outside the result type saturates (error is overflow)
 /// - the unsigned functions negate the value of a sequence with a minus sign
-/// - without any digits, or with a value outside the result type, end is
-///   str.data() and value is 0
+/// - without any digits end is str.data() (error is invalid_input)
 template <integral Int>
 [[nodiscard]] constexpr auto strto_integer(string_view str, int base) noexcept -> strings::to_integer_result<Int>
 {
@@ -36,6 +36,11 @@ template <integral Int>
     constexpr auto checked = strings::to_integer_options{
         .skip_whitespace = false,
         .check_overflow  = true,
+        .allow_plus_sign = false,
+    };
+    constexpr auto unchecked = strings::to_integer_options{
+        .skip_whitespace = false,
+        .check_overflow  = false,
         .allow_plus_sign = false,
     };
 
@@ -67,19 +72,34 @@ template <integral Int>
 
     auto const digits    = str.substr(pos);
     auto const magnitude = strings::to_integer<UInt, checked>(digits, static_cast<UInt>(base));
-    if (magnitude.error != to_integer_error::none) {
-        return result_t{.end = str.data(), .error = magnitude.error};
+    if (magnitude.error == to_integer_error::invalid_input) {
+        return result_t{.end = str.data(), .error = to_integer_error::invalid_input};
+    }
+
+    auto end      = magnitude.end;
+    auto overflow = magnitude.error == to_integer_error::overflow;
+    if (overflow) {
+        // to_integer gives up at the first digit that does not fit, the subject sequence ends behind the last one
+        end = strings::to_integer<UInt, unchecked>(digits, static_cast<UInt>(base)).end;
     }
 
     if constexpr (signed_integral<Int>) {
         auto const limit = static_cast<UInt>(static_cast<UInt>(limits::max()) + static_cast<UInt>(negative ? 1 : 0));
-        if (magnitude.value > limit) {
-            return result_t{.end = str.data(), .error = to_integer_error::overflow};
+        if (overflow or magnitude.value > limit) {
+            return result_t{
+                .end   = end,
+                .error = to_integer_error::overflow,
+                .value = negative ? limits::min() : limits::max(),
+            };
+        }
+    } else {
+        if (overflow) {
+            return result_t{.end = end, .error = to_integer_error::overflow, .value = limits::max()};
         }
     }
 
     auto const value = negative ? static_cast<Int>(UInt{0} - magnitude.value) : static_cast<Int>(magnitude.value);
-    return result_t{.end = magnitude.end, .error = to_integer_error::none, .value = value};
+    return result_t{.end = end, .error = to_integer_error::none, .value = value};
 }
 
 } // namespace etl::detail
